@@ -6,13 +6,17 @@ Newton/secant/bisection/Aitken scheme on an uninterpreted function); the closure
 the non-degeneracy clause are a bounded stand-in on the compiled code (C11_bounded.py), labelled bounded.
 
 Under contract (real source, re-read on every run):
-  solvers.py::numba_newton_raphson            loop invariant: every iterate and both bracket ends stay >= 0 when the guess is >= 0 and the
-                                              hard bounds are (0, inf); hence any value returned is >= 0; only ValueError escapes
+  solvers.py::numba_newton_raphson            full exit contract for an arbitrary function, guess, bounds, tolerances (contracts/newton_common.py, shared with
+                                              C10): range [min(lo, g-|g|/2), max(hi, g+|g|/2)], bracket invariant (function values, strict sign change, contains the
+                                              iterate, never lost, only shrinks), converged exit = last step passes the tolerance test against the last evaluation
+                                              point, exhausted exit returns only with errors off, only ValueError escapes
   wind_inversion.py::_u10_iteration_function  F(0) = -target;  F(u) = integral of the input at (u, given direction) - target - rate of change
                                               integrated where the input is positive (active region)
   wind_inversion.py::spectral_time_derivative_in_active_region
   wind_inversion.py::_u10_from_bulk_rate_point  target 0 -> (0, given direction); solver called on F with this spectrum/target, bounds (0, inf),
-                                              step tolerance 0.01; any exception -> NaN; without direction iteration the direction is returned unchanged
+                                              step tolerance 0.01 (rtol 1, errors on, 100 iterations, no Aitken step); any exception -> NaN; without direction
+                                              iteration the direction is returned unchanged and (solver's exit contract at the call site) a speed that comes out
+                                              of the solver left it by convergence: last step < 0.01 m/s from the last evaluation point, speed >= 0
   wind_inversion.py::_u10_from_spectra_point  target = -(integrated dissipation), direction = dissipation-weighted mean direction of
                                               _bulk_dissipation_direction_point
   dissipation.py::_bulk_dissipation_direction_point   bulk = integral of the point dissipation, direction = atan2 of the k-weighted sums, mod 360
@@ -575,6 +579,9 @@ entry = Contract(
 CONTRACTS = [newton, iteration_function, active_region, bulk_rate_point, bulk_dissipation_direction, spectra_point, spectra_batch, wrapper, entry]
 BOUNDED = [Bounded("inversion_closes_balance.compiled", bounded_inversion)]
 TRUSTED = ["floats as reals: a division by zero yields an unspecified real (numba raises ZeroDivisionError, which the caller's bare except also turns into NaN)",
+           "the function handed to numba_newton_raphson is a (deterministic, total, real-valued) function of its first argument: NaN function values are outside the model, and the "
+           "balance of C11 carries a roughness memory between evaluations (its value depends on the evaluation history through the first guess of the roughness solver)",
            "numba compiles the functions faithfully (the bounded stand-in runs the compiled code; it is what exposed the keyword-argument defect fixed in /repo)"]
-EXPLANATION = ("wiring of the wind inversion proved around an uninterpreted balance function; convergence / closure / non-degeneracy are a bounded check "
+EXPLANATION = ("wiring of the wind inversion proved around an uninterpreted balance function, incl. the exit contract of the root finder (a returned speed left the solver through "
+               "its 0.01 m/s step test, is >= 0, and lies in any sign-change bracket the solver holds); convergence / closure / non-degeneracy are a bounded check "
                "of the compiled estimate_u10_from_source_terms on JONSWAP wind seas")
